@@ -168,7 +168,7 @@ prop(
     "C16", "exploration",
     rule="one evaluation = one status returned by fetch_header / fetch_transaction (judged as an edge of the status automaton against the previous status of the same hash, and against the missing reports of honest peers), "
          "one committed (transaction, block hash) pairing, or one bounded-progress judgement; a cell = (kind, status edge, disturbance mode) / final status class",
-    sizes=tiers(16, 60, 60, 16, 2500, 900, min_evals=3000, min_cells=20),
+    sizes=tiers(16, 400, 60, 16, 6000, 900, min_evals=3000, min_cells=20),
     technique="runtime monitoring: offline status-automaton checker over the RPC call/return trace, ground-truth lookup (transaction -> containing block), missing-report bookkeeping at the peer boundary, bounded-progress oracle",
     level_text="In generated histories (existing and non-existing headers / transactions, 1-3 proven peers, fetch ticks with real or fast timer periods, serving peer answering invalidly, not answering until the timeout, answering several rounds late while further fetch calls arrive, or disconnecting before the answer) every status sequence is a path added -> fetching(first_sent constant) -> fetched | not_found -> added ..., not_found appears only after a valid missing report, an existing item is fetched within 45 rounds while an honest proven peer is connected, and every committed answer names a stored header whose block contains the transaction. A quarter of the scenarios fetch a transaction of the two highest provable blocks, switch the whole network to a branch that replaces that height, store the new branch's block at the same height (fetch_header, fetch_transaction or filter-sync indexing) and judge what get_transaction / fetch_transaction then say about the first transaction (KF47).",
     level_note="'never lost' is restated as bounded progress (45 rounds; 110 for the timeout mode); a committed answer after a fork switch is accepted when it names the block that really contains the transaction (stale but truthful) or when the status is no longer committed",
